@@ -544,8 +544,9 @@ PROPS = {
             "ties: with MaxResults = 1 which of several edges at the optimal distance is reported is unspecified (heap order, Go map "
             "order in findEdgesBruteForce)",
         ],
-        "partial": ["label: partial (numeric lower bounds are hypotheses; targets that use MaxError: statement ApproxTargetSpec, "
-                    "checked by correspondence only)"],
+        "partial": ["label: partial (numeric lower bounds are hypotheses: WorldOK / WorldApprox; under them targets that use MaxError "
+                    "are proved for MaxResults = 1, MaxResults != 1 (ApproxMultiSpec, top-k / rank semantics) and the threshold "
+                    "calls: Properties/C08_Approx.lean)"],
     },
     "C05": {
         "translators": ["translator_c19", "translator_c07"],
